@@ -153,6 +153,7 @@ def check(rep, an, tier):
                                          ("prediction", S("N", rel_axis(cfg["K"])), urel, "TOTAL" if cfg["baseline"] else None)])
         F.pred_from_X(rep, res, entry, 0, 2)
         F.hygiene(rep, res, entry, refresh=False)
+        R.rule_rowsep(rep, res, entry)
     R.rule_api(rep, results, entry)
     # unknown objective raises
     d = {n: AXES[n][0][0] for n in AXES}
